@@ -635,51 +635,76 @@ func checkC15(c *Ctx) {
 			}
 			nSite++
 			construct := sprintf("error of the request entry in %s#%d", fname(fn), nSite)
-			var failEdge *ssa.BasicBlock
-			for _, b := range fn.Blocks {
-				if len(b.Instrs) == 0 {
-					continue
+			// verdict for one function and the value that is the entry's error there: "" = every path from its
+			// non-nil edge builds the answer; the test may sit in a helper the error is handed to
+			var judge func(f *ssa.Function, ev ssa.Value, d int) string
+			judge = func(f *ssa.Function, ev ssa.Value, d int) string {
+				var failEdge *ssa.BasicBlock
+				for _, b := range f.Blocks {
+					if len(b.Instrs) == 0 {
+						continue
+					}
+					ifi, ok := b.Instrs[len(b.Instrs)-1].(*ssa.If)
+					if !ok {
+						continue
+					}
+					bin, ok := ifi.Cond.(*ssa.BinOp)
+					if !ok || !(bin.X == ev && ir.IsNilConst(bin.Y) || bin.Y == ev && ir.IsNilConst(bin.X)) {
+						continue
+					}
+					if bin.Op == token.NEQ {
+						failEdge = b.Succs[0]
+					} else if bin.Op == token.EQL {
+						failEdge = b.Succs[1]
+					}
 				}
-				ifi, ok := b.Instrs[len(b.Instrs)-1].(*ssa.If)
-				if !ok {
-					continue
+				if failEdge == nil {
+					if d < 2 && ev.Referrers() != nil {
+						for _, r := range *ev.Referrers() {
+							hc, ok := r.(*ssa.Call)
+							if !ok {
+								continue
+							}
+							sc := ir.StaticCallee(hc)
+							if sc == nil || !c.P.IsLib(sc) {
+								continue
+							}
+							for i, a := range hc.Call.Args {
+								if a == ev && i < len(sc.Params) {
+									return judge(sc, sc.Params[i], d+1)
+								}
+							}
+						}
+					}
+					return sprintf("%s never tests the error returned by %s: a failing middleware gets no internal-error answer", fname(f), en)
 				}
-				bin, ok := ifi.Cond.(*ssa.BinOp)
-				if !ok || !(bin.X == errv && ir.IsNilConst(bin.Y) || bin.Y == errv && ir.IsNilConst(bin.X)) {
-					continue
-				}
-				if bin.Op == token.NEQ {
-					failEdge = b.Succs[0]
-				} else if bin.Op == token.EQL {
-					failEdge = b.Succs[1]
-				}
-			}
-			if failEdge == nil {
-				c.R.Violate("R-error-internal", construct, c.Pos(call.Pos()), sprintf("%s never tests the error returned by %s: a failing middleware gets no internal-error answer", fname(fn), en))
-				return
-			}
-			// blocks that build the internal error
-			builders := map[*ssa.BasicBlock]bool{}
-			for _, b := range fn.Blocks {
-				for _, in2 := range b.Instrs {
-					if ci, ok := in2.(ssa.CallInstruction); ok {
-						if _, isGo := ci.(*ssa.Go); !isGo && internalErr(ci, 0) {
-							builders[b] = true
+				builders := map[*ssa.BasicBlock]bool{}
+				for _, b := range f.Blocks {
+					for _, in2 := range b.Instrs {
+						if ci, ok := in2.(ssa.CallInstruction); ok {
+							if _, isGo := ci.(*ssa.Go); !isGo && internalErr(ci, 0) {
+								builders[b] = true
+							}
+						}
+						if st, ok := in2.(*ssa.Store); ok {
+							if n, ok := ir.ConstInt(st.Val); ok && n == -32603 {
+								builders[b] = true
+							}
 						}
 					}
 				}
-			}
-			ok2 := builders[failEdge]
-			if !ok2 {
-				ok2 = true
+				if builders[failEdge] {
+					return ""
+				}
 				for b := range flow.BlocksReachableAvoiding(failEdge, builders) {
 					if len(b.Succs) == 0 {
-						ok2 = false
+						return sprintf("%s can leave the err != nil edge of the error returned by %s without building an internal-error (-32603) answer: a middleware error of that kind is not answered as a JSON-RPC internal error", fname(f), en)
 					}
 				}
+				return ""
 			}
-			c.R.Check(ok2, "R-error-internal", construct, c.Pos(call.Pos()), "every path from the err != nil edge builds a -32603 answer",
-				sprintf("%s can leave the err != nil edge of its call of %s without building an internal-error (-32603) answer: a middleware error of that kind is not answered as a JSON-RPC internal error", fname(fn), en))
+			why := judge(fn, errv, 0)
+			c.R.Check(why == "", "R-error-internal", construct, c.Pos(call.Pos()), "every path from the err != nil edge builds a -32603 answer", why)
 		})
 	}
 	c.R.Min("R-error-internal", 3)
